@@ -454,6 +454,13 @@ type sgSignedDoc struct {
 // number, sequence): the real signing helpers of /repo/testutil/tx are run on
 // a scratch branch of the state in which the account has exactly these values.
 func (w *sgWorld) sgSignCosmos(ctx sdk.Context, route string, a *sgAcct, chain string, accNum, seq uint64, msgs []sdk.Msg, gasPrice *big.Int) ([]byte, sgSignedDoc, error) {
+	return w.sgSignCosmosDomain(ctx, route, a, chain, chain, accNum, seq, msgs, gasPrice)
+}
+
+// sgSignCosmosDomain: as sgSignCosmos; for the EIP-712 routes [domain] is the chain
+// id whose EIP-155 number goes into the typed-data domain (and the Web3
+// extension), which may differ from the chain id inside the sign doc.
+func (w *sgWorld) sgSignCosmosDomain(ctx sdk.Context, route string, a *sgAcct, chain, domain string, accNum, seq uint64, msgs []sdk.Msg, gasPrice *big.Int) ([]byte, sgSignedDoc, error) {
 	sctx, _ := ctx.CacheContext()
 	sctx = sctx.WithChainID(chain)
 	acc := w.App.AccountKeeper.GetAccount(sctx, a.Acc)
@@ -464,7 +471,7 @@ func (w *sgWorld) sgSignCosmos(ctx sdk.Context, route string, a *sgAcct, chain s
 	_ = acc.SetAccountNumber(accNum)
 	w.App.AccountKeeper.SetAccount(sctx, acc)
 	fees := sdk.NewCoins(sdk.NewCoin(utils.BaseDenom, sdkmath.NewIntFromBigInt(new(big.Int).Mul(gasPrice, big.NewInt(sgCosmosGas)))))
-	args := utiltx.CosmosTxArgs{TxCfg: w.TxCfg, Priv: a.Priv, ChainID: chain, Gas: sgCosmosGas, Fees: fees, Msgs: msgs}
+	args := utiltx.CosmosTxArgs{TxCfg: w.TxCfg, Priv: a.Priv, ChainID: domain, Gas: sgCosmosGas, Fees: fees, Msgs: msgs}
 	var tx sdk.Tx
 	var err error
 	switch route {
@@ -738,6 +745,25 @@ func sgMoved(pre, post []uint64) (int, bool) {
 	return who, n <= 1
 }
 
+// sgWhy says, for the report, why a submission must not execute for the signer.
+func sgWhy(what string) string {
+	switch {
+	case strings.HasPrefix(what, "replay"):
+		return "a replay of a transaction that was already executed"
+	case strings.HasPrefix(what, "nonce-ahead"):
+		return "a transaction whose nonce is not the account's current sequence"
+	case strings.HasPrefix(what, "env-"):
+		return "an Ethereum message in a non-canonical Cosmos envelope (" + what + ")"
+	case strings.HasPrefix(what, "unprotected"):
+		return "an unprotected (pre-EIP-155) signature, valid on every chain, while AllowUnprotectedTxs is false"
+	case strings.HasPrefix(what, "signed-for-") || strings.HasPrefix(what, "eip712-domain"):
+		return "a signature made for another chain id (" + what + ")"
+	case strings.HasPrefix(what, "signed-"):
+		return "a signature made over another account number / sequence (" + what + ")"
+	}
+	return "a signed transaction with one field changed after signing (" + what + ")"
+}
+
 // ---------------------------------------------------------------- the mutation cases
 type sgInput struct {
 	Kind  string `json:"kind"`  // "mutations" | "blocks"
@@ -820,10 +846,10 @@ func (w *sgWorld) submitEth(c *sgCase, ctx sdk.Context, signer *sgAcct, s sgEthS
 		}
 	case "not-for-signer":
 		if who == signerIdx || post[signerIdx] != pre[signerIdx] {
-			c.fail("%s: executed on behalf of the ORIGINAL account (sequence %d -> %d) although that account never signed this", s.what, pre[signerIdx], post[signerIdx])
+			c.fail("%s was executed on behalf of the signing account (its sequence went %d -> %d)", sgWhy(s.what), pre[signerIdx], post[signerIdx])
 		}
 		if postBal.Cmp(preBal) < 0 {
-			c.fail("%s: the original account paid %s although it never signed this", s.what, new(big.Int).Sub(preBal, postBal))
+			c.fail("%s made the signing account pay %s", sgWhy(s.what), new(big.Int).Sub(preBal, postBal))
 		}
 		if who >= 0 {
 			c.tags["mutant-accepted-for-another-account"] = true
@@ -1047,10 +1073,10 @@ func (w *sgWorld) submitCosmos(c *sgCase, ctx sdk.Context, route string, signer 
 		}
 	case "not-for-signer":
 		if who == signerIdx || post[signerIdx] != pre[signerIdx] {
-			c.fail("%s: executed on behalf of the ORIGINAL account (sequence %d -> %d) although that account never signed this", s.what, pre[signerIdx], post[signerIdx])
+			c.fail("%s was executed on behalf of the signing account (its sequence went %d -> %d)", sgWhy(s.what), pre[signerIdx], post[signerIdx])
 		}
 		if postBal.Cmp(preBal) < 0 {
-			c.fail("%s: the original account paid %s although it never signed this", s.what, new(big.Int).Sub(preBal, postBal))
+			c.fail("%s made the signing account pay %s", sgWhy(s.what), new(big.Int).Sub(preBal, postBal))
 		}
 	}
 }
@@ -1110,6 +1136,16 @@ func (w *sgWorld) runCosmosMutations(c *sgCase, e *Env, r *Rng, route string) {
 	variant("signed-sequence+1", chainID, accNum, seq0+1)
 	if seq0 > 0 {
 		variant("signed-sequence-1", chainID, accNum, seq0-1)
+	}
+	if strings.HasPrefix(route, "eip712") {
+		// this chain's sign doc under the EIP-712 domain of the other network
+		if bz, d, err := w.sgSignCosmosDomain(ctx, route, a, chainID, sgOtherChain, accNum, seq0, m0, price); err == nil {
+			if route == "eip712-ext" {
+				branch("eip712-domain-chain-54211", bz, &d) // the doc is this chain's; the extension says 54211
+			} else {
+				branch("eip712-domain-chain-54211", bz, nil) // no sign doc has this digest among its renderings
+			}
+		}
 	}
 	// ---- main line
 	h := sgHist{}
